@@ -149,12 +149,12 @@ CHECKS = {
         technique="Coq proof (rendering lemmas by induction over argument lists / sub-patterns) + generated-program co-execution against the real macros"),
     "C06": dict(
         text="Machine-checked theorems (Props/C06.v): matching! as a compiler (front end, guess_arg_kind, arm list with m/l identifiers and &&-joined guard tokens, diagnostics arm, catch-all) "
-             "is proved equal to a Rust match evaluator for all inputs outside the F3 class (known finding: a bare top-level `||` guard next to an eq!/ne! operand, C06_refuted), and independent of the "
-             "reporter (diagnostics on/off) for ALL inputs; matching!() accepts everything; packing and AsRef coercions are views. Tied to /repo on every run by compiling ~420 generated matching! "
+             "is proved equal to a Rust match evaluator for ALL inputs (the former F3 class - a bare top-level `||` guard next to an eq!/ne! operand - was repaired by a fix: commit, "
+             "C06_f3_repaired), and independent of the reporter (diagnostics on/off); matching!() accepts everything; packing and AsRef coercions are views. Tied to /repo on every run by compiling ~420 generated matching! "
              "invocations with the real macro and evaluating them over their whole argument domain unordered, ordered, and next to a literal Rust match compiled by rustc: model, spec and "
              "implementation must agree.",
         design_ref="DESIGN.md section 7, C06",
-        technique="Coq proof over an executable macro model (compile = rust_match) + generated-program co-execution with rustc's own match as oracle; F3 as known finding"),
+        technique="Coq proof over an executable macro model (compile = rust_match) + generated-program co-execution with rustc's own match as oracle"),
     "C15": dict(
         text="Machine-checked theorems (Props/C15.v): an unmentioned provided method runs the default body in any state; running the default body through the mock IS making its required calls "
              "directly, in order, on the same shared state (same responses, counters, ordered index, slots, errors) with the body's result built from exactly those responses; every receiver kind "
